@@ -200,7 +200,9 @@ fn g_write_file(_w: &MinidumpWriter, _b: &mut DumpBuf, f: &str) -> std::result::
     touch_target();
     if kani::any() { Ok(any_loc()) } else {
         // "/etc/lsb-release" falls back to "/etc/os-release": only the failure of the fallback fails the step
-        if f.as_bytes() != b"/etc/lsb-release" {
+        // ("/etc/lsb-release" is the only 16-byte file name generate_dump passes; a byte-wise comparison would
+        // need memcmp unwinding)
+        if f.len() != 16 {
             unsafe { FAILED_BEST_EFFORT += 1; }
         }
         Err(MemoryWriterError::Scroll(scroll::Error::TooBig { size: 0, len: 0 }))
